@@ -69,8 +69,12 @@ def gen_float_word(rng, conf=False):
             return b64(0.0)
         if r < 0.40:
             return b64(-0.0)
-        if r < 0.80:
+        if r < 0.74:
             return f32_to_b64(rng.choice([0x3F800000, 0x3F000000, 0x3E4CCCCD, 0x3F7FFFFF]))
+        if r < 0.80:
+            # non-zero confidences next to zero: the point is observed (missing means confidence == 0, nothing looser)
+            return rng.choice([b64(3e-9), b64(-2e-10), b64(1e-30), b64(1e-8), f32_to_b64(0x00800000), f32_to_b64(0x80800000),
+                               f32_to_b64(0x00000001), f32_to_b64(0x322BCC77)])
     if r < 0.15:
         return f32_to_b64(rng.choice(F32_SPECIAL))
     if r < 0.75:
@@ -123,6 +127,9 @@ def gen_pose_case(rng, max_pts=5, max_frames=4, max_people=3, edge=0.25, dims_ch
     case["hdrc"] = rng.choice(["tuple", "tuple", "tuple", "list", "np_int64", "np_int64", "np_int32", "np_uint16", "np_scalar"])
     # how the body array is handed to the constructor
     case["maskmode"] = rng.choice(["nomask", "nomask", "plain", "partial", "full", "noncontig"])
+    # the version attribute of the header object handed to the writer (a pose read from a legacy file carries 0.1 / 0.0): Pose.write
+    # produces the current layout whatever it says
+    case["hversion"] = rng.choice([0.2, 0.2, 0.2, 0.1, 0.0, 0.3, 1.0])
     if rng.random() < edge:
         e = rng.choice(["dim_neg", "dim_big", "limb_big", "limb_neg", "color_big", "surrogate", "long_name", "fps_inf", "fps_nan", "fps_big",
                         "fps_edge", "more_points", "fewer_points", "conf_shape", "no_comps", "empty_format", "dims_mismatch", "rank3",
@@ -249,7 +256,7 @@ def build_pose(case):
     dims = list(case["dims"])
     if mode.startswith("np_") and all(isinstance(d, int) and -2 ** 31 <= d < 2 ** 31 for d in dims):
         dims = [np.int64(d) for d in dims]
-    header = PoseHeader(0.2, PoseHeaderDimensions(*dims), comps)
+    header = PoseHeader(case.get("hversion", 0.2), PoseHeaderDimensions(*dims), comps)
     data = np.array(case["data"], dtype=np.uint64).view(np.float64).reshape(case["shape"])
     conf = np.array(case["conf"], dtype=np.uint64).view(np.float64).reshape(case["cshape"])
     if case.get("dtype") == "f32":
@@ -382,10 +389,33 @@ def twin_bytes(file_bytes):
     return (V01_WORD if b[:4] != V01_WORD else V02_WORD) + b[4:]
 
 
-def impl_read(data, kind="bytes", args=None, counting=False):
+ARG_TYPES = ["int", "int", "int", "np.int64", "np.int32", "np.int16", "np.uint16", "np.uint8", "np.int8"]
+
+
+def typed_args(args, argtype, limit=None):
+    """window bounds as the caller may hold them: Python ints or NumPy integer scalars; the same integers either way.  A NumPy
+    type is used only when it holds the bound AND the file's frame count (`limit`): NumPy refuses to mix a narrow scalar with a
+    Python int outside its range (OverflowError, NEP 50), which is the caller's choice of type, not the reader's doing."""
+    if not argtype or argtype == "int":
+        return args
+    out = {}
+    for k, v in args.items():
+        if isinstance(v, int) and not isinstance(v, bool):
+            for t in (argtype, "np.int16", "np.int32", "np.int64"):
+                dt = np.dtype(t[3:])
+                info = np.iinfo(dt)
+                if info.min <= v <= info.max and (limit is None or limit + 1 <= info.max):
+                    v = dt.type(v)
+                    break
+        out[k] = v
+    return out
+
+
+def impl_read(data, kind="bytes", args=None, counting=False, argtype=None, limit=None):
     """-> (["ok", dump] | ["err", name], pulled)"""
     from pose_format import Pose
     args = {k: v for k, v in (args or {}).items() if v is not None}
+    args = typed_args(args, argtype, limit)
     try:
         if kind == "bytes":
             return ["ok", dump_pose(Pose.read(bytes(data), **args))], 0
